@@ -351,7 +351,8 @@ user_exists(const string *localpart, const char *domain, struct userconf *dsp)
 			userconf_free(ds);
 			return res;
 		}
-		p = strchr(p + 1, '-');
+		/* localpart is not 0-terminated, the domain follows it */
+		p = memchr(p + 1, '-', localpart->len - (p + 1 - localpart->s));
 	}
 
 	/* does USERPATH/DOMAIN/.qmail-default exist ? */
